@@ -145,9 +145,44 @@ def main():
                 r = run(fac, seq, kind)
                 if r:
                     fail(f"{kind} backend deviates from the map model", {"ops": [list(map(lambda x: x.decode() if isinstance(x, bytes) else x, ops[o])) for o in seq], "why": r})
+        # (c) directed: ALL sequences of length 4 over a reduced operation set on a name and a sibling whose name extends it
+        #     (loose + packed copies of one ref, packed sibling 'a-2' that is not a directory conflict)
+        n1, n2 = b"refs/heads/a", b"refs/heads/a-2"
+        saved_ops = list(ops)
+        ops[:] = [("set", n1, A), ("set", n1, B), ("del", n1), ("cad", n1, B), ("add", n1, A), ("set", n2, A), ("del", n2), ("pack",)]
+        for seq in itertools.product(range(len(ops)), repeat=4):
+            cases += 1
+            r = run(disk, seq, "disk")
+            if r:
+                fail("disk backend deviates from the map model", {"ops": [list(map(lambda x: x.decode() if isinstance(x, bytes) else x, ops[o])) for o in seq], "why": r})
+        ops[:] = saved_ops
+        # (d) the packed-refs directory/file conflict test against its definition, all packed sets of size <= 2 over 8 names
+        U = [b"refs/heads/a", b"refs/heads/a/b", b"refs/heads/a/b/c", b"refs/heads/a-2", b"refs/heads/ab", b"refs/heads", b"refs/heads/b", b"refs/tags/a"]
+        for r_ in (0, 1, 2):
+            for packed in itertools.combinations(U, r_):
+                c = disk()
+                if packed:
+                    with open(os.path.join(c.path, b"packed-refs"), "wb") as pf:
+                        pf.write(b"".join(A + b" " + nm + b"\n" for nm in sorted(packed)))
+                for nm in U:
+                    cases += 1
+                    want = None
+                    if any(nm.startswith(pk + b"/") for pk in packed):
+                        want = NotADirectoryError
+                    elif any(pk.startswith(nm + b"/") for pk in packed):
+                        want = IsADirectoryError
+                    try:
+                        c._check_no_packed_conflict(nm, b"f")
+                        got = None
+                    except OSError as e:
+                        got = type(e)
+                    if got is not want:
+                        fail("_check_no_packed_conflict != definition", {"packed": [x.decode() for x in packed], "name": nm.decode(),
+                                                                         "raised": got.__name__ if got else None, "expected": want.__name__ if want else None})
     print(json.dumps({"name": "c16_backends", "function": "dulwich/refs.py check_ref_format + Dict/DiskRefsContainer", "cases": cases, "exhaustive": True,
                       "bound": f"ref names: all strings <= {n} over a 13-symbol class alphabet; backends: every {step}th of all {len(ops)}^{K} operation sequences "
-                      "over 4 names (one directory/file pair) incl. pack_refs and re-open" + ("; git check-ref-format on all strings <= 4 over 10 symbols" if tier == "thorough" else ""),
+                      "over 4 names (one directory/file pair) incl. pack_refs and re-open; all 8^4 sequences of a reduced operation set on 'a' and 'a-2'; "
+                      "_check_no_packed_conflict on all packed sets <= 2 of 8 names" + ("; git check-ref-format on all strings <= 4 over 10 symbols" if tier == "thorough" else ""),
                       "failures": failures, "secs": round(time.time() - t0, 2)}))
 
 
